@@ -52,6 +52,23 @@ func (cw *CodeWriter) WriteSemi() {
 	}
 }
 
+// avoidFusion writes a space when the operator about to be written would fuse
+// with the last character written into a different token: "+" after "+" and
+// "-" after "-" (a - -b, a + ++b, - -a), and "--" after "<!" (a < !--b, where
+// "<!--" opens a comment in JavaScript).
+func (cw *CodeWriter) avoidFusion(op string) {
+	cw.flushPending()
+	written := cw.Builder.String()
+	if op == "" || written == "" {
+		return
+	}
+	last := written[len(written)-1]
+	if (op[0] == '+' || op[0] == '-') && last == op[0] ||
+		op == "--" && strings.HasSuffix(written, "<!") {
+		cw.WriteRune(' ')
+	}
+}
+
 // String returns the accumulated string
 func (cw *CodeWriter) String() string {
 	return cw.Builder.String()
